@@ -3,15 +3,18 @@ package checks
 import (
 	"context"
 	"encoding/json"
+	"errors"
 	"fmt"
 	"os"
 	"path/filepath"
+	"sort"
 	"sync"
 	"sync/atomic"
 	"time"
 
 	"github.com/kercylan98/vivid"
 	"github.com/kercylan98/vivid/internal/actor"
+	"github.com/kercylan98/vivid/internal/messages"
 	"github.com/kercylan98/vivid/pkg/ves"
 	"github.com/kercylan98/vivid/verifharness/core"
 	"github.com/kercylan98/vivid/verifharness/tlc"
@@ -20,6 +23,21 @@ import (
 func init() { register("C15", checkC15) }
 
 var transDefaults = map[string]any{"e": "", "op": "", "target": "", "fwd": "", "flavour": "", "h": "", "s": "", "d": "", "v": 0}
+
+// badmsg is registered with the wire registry, but its writer hands the wire writer a kind it does not support.
+type badmsg struct{}
+
+var registerBadmsg sync.Once
+
+func ensureBadmsg() {
+	registerBadmsg.Do(func() {
+		vivid.RegisterCustomMessage[*badmsg]("verif.badmsg",
+			func(message any, r *messages.Reader, _ messages.Codec) error { return nil },
+			func(message any, w *messages.Writer, _ messages.Codec) error {
+				return w.WriteFrom(map[string]int{"x": 1})
+			})
+	})
+}
 
 // cmsg is known to the user Codec only (not registered with the wire registry).
 type cmsg struct {
@@ -112,6 +130,9 @@ func (w *transWorld) spawn(sys *actor.System, name, mode string) (vivid.ActorRef
 			}
 		default:
 			w.note(name, m)
+			if mode == "fail-plain" && ctx.Sender() != nil {
+				ctx.Reply(errors.New("a plain failure of the asked actor"))
+			}
 			if mode == "echo" && ctx.Sender() != nil {
 				switch q := m.(type) {
 				case *rmsg:
@@ -223,9 +244,23 @@ func (w *transWorld) run(tc *transCase) (string, error) {
 	if c.Op == "pipe-fail" {
 		mode = "silent"
 	}
+	if c.Op == "pipe-fail-plain" {
+		mode = "fail-plain"
+	}
 	tsys, tref, err := w.place(c.Target, tname, mode)
 	if err != nil {
 		return "", err
+	}
+	if c.Hist == "after-failed-encode" {
+		// messages to the other system whose encoding fails inside the wire writer (an unsupported kind)
+		ensureBadmsg()
+		sink, err := w.a.CreateRef(w.addrB, "/nobody-there")
+		if err != nil {
+			return "", err
+		}
+		for i := 0; i < 8; i++ {
+			w.opCtx.Tell(sink, &badmsg{})
+		}
 	}
 	if c.Hist == "recreated" {
 		// first incarnation: hears from the operator, is terminated by its own system; then the path is re-used
@@ -384,7 +419,7 @@ func (w *transWorld) run(tc *transCase) (string, error) {
 			return "pong", nil
 		}
 		return "no-pong", nil
-	case "pipe-ok", "pipe-fail":
+	case "pipe-ok", "pipe-fail", "pipe-fail-plain":
 		fname := fmt.Sprintf("f%d", n)
 		_, fref, err := w.place(c.Fwd, fname, "silent")
 		if err != nil {
@@ -448,9 +483,15 @@ func checkC15(c *core.Ctx) {
 		c.Broken("cases.json: %v", err)
 		return
 	}
+	// cells whose history disturbs the process-wide state of the codec run last: what they break must show in their own
+	// outcome, not in the set-up of unrelated cells
+	sort.SliceStable(cases, func(i, j int) bool {
+		return cases[i].Case.Hist != "after-failed-encode" && cases[j].Case.Hist == "after-failed-encode"
+	})
 	reps := core.Pick(c, 1, 5)
 	var traces []*Trace
-	for rep := 0; rep < reps; rep++ {
+	var setupErr error
+	for rep := 0; rep < reps && setupErr == nil; rep++ {
 		w, err := newTransWorld()
 		if err != nil {
 			c.Broken("cannot set up the two systems: %v", err)
@@ -460,24 +501,29 @@ func checkC15(c *core.Ctx) {
 			before := w.decodeFails.Load()
 			out, err := w.run(tc)
 			if err != nil {
-				w.close()
-				c.Broken("cell %+v could not be executed: %v", tc.Case, err)
-				return
+				// what the cells executed so far observed is judged first: a set-up that fails may be the consequence of a
+				// violation that an earlier cell already shows
+				setupErr = fmt.Errorf("cell %+v could not be executed: %v", tc.Case, err)
+				break
 			}
 			time.Sleep(5 * time.Millisecond)
 			ev := map[string]any{"e": "Cell", "op": tc.Case.Op, "target": tc.Case.Target, "fwd": tc.Case.Fwd, "flavour": tc.Case.Flavour, "h": tc.Case.Hist,
 				"s": out, "d": tc.Expected, "v": int(w.decodeFails.Load() - before)}
 			c.Add("evaluations", 1)
-			traces = append(traces, &Trace{Events: []map[string]any{ev}, Class: tc.Case.Op + "-" + tc.Case.Target + map[string]string{"recreated": "-recreated"}[tc.Case.Hist], Name: fmt.Sprintf("%s/%s/%s/%s/%s#%d", tc.Case.Op, tc.Case.Target, tc.Case.Fwd, tc.Case.Flavour, tc.Case.Hist, rep), Scenario: tc})
+			traces = append(traces, &Trace{Events: []map[string]any{ev}, Class: tc.Case.Op + "-" + tc.Case.Target + map[string]string{"recreated": "-recreated", "after-failed-encode": "-after-failed-encode"}[tc.Case.Hist], Name: fmt.Sprintf("%s/%s/%s/%s/%s#%d", tc.Case.Op, tc.Case.Target, tc.Case.Fwd, tc.Case.Flavour, tc.Case.Hist, rep), Scenario: tc})
 		}
 		w.close()
 	}
 	res := ValidateTraces(c, "loctrans", "TransMon", "TransMon.cfg", traces, transDefaults)
 	res.Report(c, "TransMon")
+	if setupErr != nil && len(res.Rejected) == 0 {
+		c.Broken("%v", setupErr)
+		return
+	}
 	c.Add("traces_validated_against_impl", int64(res.Validated))
 	c.Set("distinct_nontrivial", len(cases))
 	c.Set("exhaustive", true)
-	c.Set("rule", "TLC enumerates the matrix operation {tell, ask, kill, poison kill, watch, unwatch, ping, pipe success, pipe failure, scheduler once} x target {local, remote} x forwarder {local, remote} (pipe) x message flavour {registered custom message, Codec-only message} x path history {fresh, recreated under the same name after an earlier incarnation heard from the operator and terminated} (tell/ask/kill/ping), plus watch-both (two watchers with the same path, one on each system); every cell is executed from an operator actor on system A against actors on A or on a second real system B over loopback TCP; TransMon compares the observed outcome with the location-independent expectation and requires that no built-in message fails to decode. Every cell is distinct; remote cells are the non-trivial ones.")
+	c.Set("rule", "TLC enumerates the matrix operation {tell, ask, kill, poison kill, watch, unwatch, ping, pipe success, pipe failure, scheduler once} x target {local, remote} x forwarder {local, remote} (pipe) x message flavour {registered custom message, Codec-only message} x path history {fresh, recreated under the same name after an earlier incarnation heard from the operator and terminated, after messages whose encoding failed} (tell/ask/kill/ping/watch), pipe failure by time-out and by a plain error reply, plus watch-both (two watchers with the same path, one on each system); every cell is executed from an operator actor on system A against actors on A or on a second real system B over loopback TCP; TransMon compares the observed outcome with the location-independent expectation and requires that no built-in message fails to decode. Every cell is distinct; remote cells are the non-trivial ones.")
 	if len(traces) > 0 {
 		c.Sample(traces[0].Events)
 		c.Sample(traces[len(traces)-1].Events)
